@@ -175,7 +175,7 @@ class SwallowDomain(Domain):
         elif not (name in self.capable or name.startswith(("self.sock.", "self.serde.")) or (isinstance(node.func, ast.Name) and node.func.id in self.aliases)):
             return [("ok", TOP, state)]
         self.n_failing += 1
-        return [("ok", TOP, state), ("exc", Exc(ORD, None, node.lineno), state.set("failed_at", node.lineno))]
+        return [("ok", TOP, state), ("exc", Exc(ORD, None, node.lineno), state.set("#failed_at", node.lineno))]
 
     def with_enter(self, item, value, state):
         return [("ok", TOP, state)]
@@ -285,7 +285,7 @@ def run(chk):
             continue
         n_cov += 1
         rr = [r for r in pruns[m] if r.ignore_exc and r.outcome == "raise"]
-        if not any(r.state.get("calls", ()) for r in rr):
+        if not any(r.state.get("#calls", ()) for r in rr):
             raise AnalysisError("C07.R3: no call on the pooled client found in PooledClient.%s" % m)
         bad = [r for r in rr if r.kind == "exc"]
         if bad:
